@@ -154,9 +154,21 @@ def oracle(case, outs):
     toks_ = out.split(" ") if out else []
     # unconditional: try_recover fails only with EOF or I/O; offsets never move backwards across a recovery
     last_off = -1
+    unbuffered = ",b-," in case.lines[0].split(" ")[2]
     for t in toks_:
         if t.startswith("T:E:") and not (t.startswith("T:E:eof:") or t.startswith("T:E:io:")):
             return "try_recover failed with something other than end of input / I/O error: %s  [%s]" % (t, case.lines[0][:400])
+        if t.startswith("T:E:eof:") and unbuffered:
+            p = t.split(":")[3]
+            if p.isdigit() and int(p) < last_off:
+                return "try_recover reports end of input at %s, before the tag already emitted at %d  [%s]" % (p, last_off, case.lines[0][:400])
+        if "@" in t and not t.startswith("E:") and not t.startswith("T:") and not t.startswith("e"):
+            # Starts, elements and Full items carry the position they were read at: it never decreases, recoveries included
+            off = t.rsplit("@", 1)[1]
+            if off.isdigit():
+                if int(off) <= last_off:
+                    return "the reader moved backwards: item %s after an item at offset %d  [%s -> %s]" % (t[:60], last_off, case.lines[0][:400], out[:300])
+                last_off = int(off)
     if case.cls.startswith("any") or not case.meta.get("fits"):
         return None
     m = case.meta
